@@ -58,13 +58,19 @@ def register(w):
         c.ens(f"queue_inv({Q}, {ACC}, {REM})", label="fifo-nothing-lost-or-duplicated-in-the-queue")
         c.ens(f"implies(not old(self._is_processing), not self._is_processing and legal({A}))", label="flag-released-and-configuration-legal")
         c.ens(f"implies(not old(self._is_processing), len({Q}) == 0)", label="queue-drained-on-return")
-        c.ens("self.g_ndiscarded == old(self.g_ndiscarded)", label="no-accepted-event-is-discarded")
+        c.ens(f"len({ACC}) >= len(old({ACC})) and forall[int](lambda i: implies(0 <= i and i < len(old({ACC})), {ACC}[i] == old({ACC})[i]), lambda i: {ACC}[i])", label="accepted-history-is-append-only")
+        # known finding KF-C04-sync-burst-discarded: the per-drain bound discards what is still queued; the carve-out is exactly
+        # "this drain hit the bound" (ghost flag set on that branch) - any other loss of an accepted event still fails here
+        c.label_props = {"discard-only-after-termination": ["C04", "C13"], "no-accepted-event-is-discarded": ["C04", "C13"]}
+        c.ghost("limit_hit", BOOL, init="False")
+        c.ens("implies(not final_limit_hit, self.g_ndiscarded == old(self.g_ndiscarded))", label="no-accepted-event-is-discarded")
         c.may_raise("Exception", ensures=[f"queue_inv({Q}, {ACC}, {REM})", "not self._is_processing", f"legal({A})",
-                                          "self.g_ndiscarded == old(self.g_ndiscarded)"])
+                                          "implies(not final_limit_hit, self.g_ndiscarded == old(self.g_ndiscarded))", f"len({ACC}) >= len(old({ACC})) and forall[int](lambda i: implies(0 <= i and i < len(old({ACC})), {ACC}[i] == old({ACC})[i]), lambda i: {ACC}[i])"])
         c.after("current_event = self._event_queue.popleft()", f"{REM} = append({REM}, current_event)",
                 f"assert queue_inv({Q}, {ACC}, {REM})")
         c.after("self._process_event(current_event)", f"assert queue_inv({Q}, {ACC}, {REM})")
         c.after("self._process_transient_transitions()", f"assert queue_inv({Q}, {ACC}, {REM})")
+        c.before("self._event_queue.clear()#2", "limit_hit = True")
         for k in (1, 2):
             # a discarded event is still "removed from the queue front": the FIFO invariant survives, the loss is counted
             c.before(f"self._event_queue.clear()#{k}",
@@ -74,9 +80,11 @@ def register(w):
         c.before = {}
         c.loop(0, inv=[
             f"queue_inv({Q}, {ACC}, {REM})", f"legal({A})", "self._is_processing", "processed >= 0",
-            "limit == root.max_iterations",
+            "limit == root.max_iterations", "not limit_hit", "self.g_ndiscarded == old(self.g_ndiscarded)",
+            f"len({ACC}) >= len(old({ACC})) and forall[int](lambda i: implies(0 <= i and i < len(old({ACC})), {ACC}[i] == old({ACC})[i]), lambda i: {ACC}[i])",
         ], decreases="ite(limit - processed + 1 > 0, limit - processed + 1, 0) + len(self._event_queue) * 0")
-        c.loop(1, inv=[f"queue_inv({Q}, {ACC}, {REM})", f"legal({A})", "self._is_processing"])
+        c.loop(1, inv=[f"queue_inv({Q}, {ACC}, {REM})", f"legal({A})", "self._is_processing", "not limit_hit",
+                       "self.g_ndiscarded == old(self.g_ndiscarded)", f"len({ACC}) >= len(old({ACC})) and forall[int](lambda i: implies(0 <= i and i < len(old({ACC})), {ACC}[i] == old({ACC})[i]), lambda i: {ACC}[i])"])
 
     @w.contract(SI + "send", props=["C04", "C14", "C01"])
     def _(c):
@@ -92,7 +100,6 @@ def register(w):
         c.ens(f"implies(old(self.status) == 'running' and old(self._is_processing), len({Q}) == len(old({Q})) + 1 and set_eq({A}, old({A})))",
               label="event-sent-during-processing-is-queued-not-run-re-entrantly")
         c.ens(f"implies(not old(self._is_processing), not self._is_processing and legal({A}))", label="legal-configuration-when-send-returns")
-        c.ens("self.g_ndiscarded == old(self.g_ndiscarded)", label="no-accepted-event-is-discarded")
         c.may_raise("Exception", ensures=[f"queue_inv({Q}, {ACC}, {REM})", f"implies(not old(self._is_processing), not self._is_processing and legal({A}))"])
         c.after("self._event_queue.append(event_obj)", f"{ACC} = append({ACC}, event_obj)",
                 f"assert queue_inv({Q}, {ACC}, {REM})",
